@@ -713,6 +713,7 @@ class Engine:
             for key, cand in self.loop_contracts.items():
                 if isinstance(key, tuple) and key and key[0] == 'match' and key[1](fn, s):
                     lc = cand; break
+        lc_fb = None
         if lc is None and len(self.loop_contracts) == 1:
             # the operator has ONE loop under contract: the contract follows that loop into a local helper of the same factory
             # (e.g. the body of a branch moved into `def _on_item(i)`), as long as it is the first loop of that helper
@@ -723,7 +724,7 @@ class Engine:
                 mod_parts = fr.module.split('.') if getattr(fr, 'module', None) else []
                 pre = '.'.join(fac[:len(mod_parts) + 1])
                 if mod_parts and key[0].startswith(fr.module + '.') and fn.startswith(pre + '.'):
-                    lc = cand
+                    lc_fb = cand          # used only for a loop that cannot be unrolled (never for a loop over a literal collection)
         # concrete iteration: for x in <python list/tuple/range(const)>
         if isinstance(s, ast.For):
             its = self.ev(p, s.iter, fr)
@@ -734,11 +735,12 @@ class Engine:
                 items = self.concrete_items(q, itv)
                 if items is not None and lc is None:
                     out.extend(self.unroll(q, s, items, fr))
-                elif lc is not None:
-                    out.extend(lc.apply(self, q, s, itv, fr))
+                elif lc is not None or lc_fb is not None:
+                    out.extend((lc or lc_fb).apply(self, q, s, itv, fr))
                 else:
                     raise Unsupported(f'loop #{ordn} in {fn} (line {s.lineno}) needs a contract')
             return out
+        lc = lc or lc_fb
         if lc is None:
             raise Unsupported(f'while loop #{ordn} in {fn} (line {s.lineno}) needs a contract')
         return lc.apply(self, p, s, None, fr)
@@ -1040,8 +1042,20 @@ class Engine:
                 return Select(c[1], canon(self.to_val(p, x)))
             else:
                 raise Unsupported(f'in {c[0]}')
+        if isinstance(container, Host) and container.kind == 'arrslice':
+            from . import heapmodels
+            items = heapmodels.arrslice_items(self, container)
+            if items is None: raise Unsupported('membership in a slice of symbolic length')
+            container = tuple(items)
         if isinstance(container, tuple):
-            cs = [self.py_equal(p, x, y) if not isinstance(y, (EvClass, PyType, Sentinel)) else self.is_same(p, x, y) for y in container]
+            def one(y):
+                # list / tuple membership is `x is y or x == y`
+                if isinstance(y, (EvClass, PyType, Sentinel)): return self.is_same(p, x, y)
+                e = self.py_equal(p, x, y)
+                if e is True or not (isinstance(x, SVal) and isinstance(y, SVal)): return e
+                s = self.is_same(p, x, y)
+                return True if s is True else (e if s is False else (s if e is False else Or(s, e)))
+            cs = [one(y) for y in container]
             if any(c is True for c in cs): return True
             cs = [c for c in cs if c is not False]
             return Or(*cs) if cs else False
